@@ -31,3 +31,44 @@ check('C13', 'proof',
       "__reduce_ex__(2) recipe; the recipe interpreter in the contract file is trusted; real pickle.dumps/loads runs on every native replay/cross-check). Chemical and "
       "Thermo round-trips are native only (bounded). 13 defects found by this check were repaired (fix: commits, known_findings.json).",
       "deductive: sidecar contracts + VC generation by symbolic execution of the real functions, z3 discharge, native replay", "DESIGN.md 4/C13")
+check('C12', 'proof',
+      "For every enumerated structure (Stream of each phase and MultiStream over each subset of {s,l,g,S,L}, 2 chemicals, planted contents; single operations exhaustively, "
+      "operation sequences up to length 5 sampled) and for all real non-negative flows and positive T, P, the real conversion code (phases/phase setters, as_stream, "
+      "reduce_phases, vle/lle/sle accessors, phase views, get_data/set_data) satisfies a step contract: per-chemical totals, T and P (same ThermalCondition object) unchanged; "
+      "each non-empty phase's material exactly in the row of its label (other-case label only when the exact label is absent); views live both ways; restore reproduces the "
+      "saved flows, phases, T and P.",
+      "Mode S: structure bounded (6004 configurations quick, 52347 thorough), values unbounded; floats as reals; real sparse kernels (no L0 substitution); every path "
+      "cross-checked natively. Known findings F-C12-4a..c (Stream.vle/lle/sle deliberately relabel solid/gas material as liquid) are printed as KNOWN-FINDING. "
+      "5 defects found by this check were repaired (fix: commits).",
+      "deductive: sidecar contracts + VC generation by symbolic execution of the real functions, z3 discharge, native replay", "DESIGN.md 4/C12")
+check('C17', 'proof',
+      "For every enumerated structure (3-4 chemicals, phase-less and 2-3 phase-tagged, mol/wt/mixed bases, pairs and triples, Parallel/Series sets of 3) and for all real "
+      "stoichiometric coefficients, conversions, k>0, positive molecular weights and feed flows, z3 proves on every path of the real operators that a+b acts like a and b in "
+      "parallel, (a+b)-b like a, k*a and a/k like a with X*k and X/k, each in-place form equals its binary form, copy/negation/reversal/combination/re-basing return new "
+      "storage-disjoint objects and leave operands (stoichiometry, reactant, X, basis) unchanged even after the result is mutated, and item and set conversions track each other.",
+      "Mode S on the L0 contract level of the SparseVector kernels (sound given the C09 mode-U kernel proofs, which run on every C09 check); values unbounded, structure bounded. "
+      "A-real, A-cpython. Molecular weights abstracted to arbitrary positive reals. Application observed through _reaction and __call__ in the feasible region (clean-up of "
+      "infeasible flows is C05). 6 defects found by this check were repaired (fix: commits).",
+      "deductive: sidecar contracts + VC generation by symbolic execution of the real functions on kernel contracts, z3 (QF_NRA) discharge, native replay", "DESIGN.md 4/C17")
+check('C19', 'other',
+      "Network.sort is proved (mode S) to return a permutation that is a linear extension of every strict partial order on up to 4 (quick) / 5 (thorough) path items, without "
+      "recycle or warning. The statement itself (complete path; acyclic: each unit once, after all units that feed it, no recycle, for every order of the unit list; cyclic: "
+      ">= 1 recycle and every stream against the order inside a common recycle loop) is checked as a BOUNDED run-time contract on the real Network.from_units: all connected "
+      "DAGs with <= 4 units (quick) / <= 5 (thorough) in every unit order, the same with 1-3 cycle-closing streams, seeded flowsheets up to 10 units; reachability closures, "
+      "sort with the real PathSource and the local path surgery exhaustively for <= 4 units.",
+      "The decisive clauses are bounded (mode B, never counted as proved): from_units/fill_path/join_* are recursive graph surgery with no contract the engines can discharge. "
+      "The mode-S group stubs PathSource by the assumed partial order. <= 3 ports per side, real feed streams, no auxiliary/universal units; set iteration order follows object "
+      "addresses. 1 defect found by this check was repaired.",
+      "bounded run-time contracts on the real from_units (exhaustive small flowsheets) + symbolic execution of Network.sort over all partial orders", "DESIGN.md 4/C19")
+check('C07', 'proof',
+      "For arbitrary heat-capacity functions and arbitrary real Tm, Tb, T_ref, P_ref, T, P, Hfus, Hvap(Tb), S0, the real Chemical._init_energies with the real functor "
+      "dispatch (free_energy.py functors, PhaseTPHandle, Functor) is proved in mode S (loop-free, all paths) to give, for the three reference phases and for phase-locked "
+      "chemicals: H = 0 and S = S0 at the reference state; the integral form of dH/dT = Cn and dS/dT = Cn/T in every phase; -R ln(P2/P1) for gas; the four phase-transition "
+      "jumps. For 2-4 chemicals the ideal mixture models and Mixture.H/S/xH/xS/xCn are proved to be mole-weighted sums, extensive for H and Cn, excess terms added iff "
+      "include_excess_energies, wired in chemical order. The ideal mixing-term sentence and 'mixing at equal T and P never lowers entropy' are REFUTED on the tree "
+      "(known finding F-C07-1, IdealEntropyModel) and printed as KNOWN-FINDING.",
+      "A-real; A-int (T_dependent_property_integral(_over_T) of `thermo` additive in their limits, ground-instantiated over the occurring temperature terms); A-models (pure "
+      "H, S, Cn, excess arbitrary functions); A-log (log uninterpreted with log(a/b) = log a - log b, ground monotonicity instances, log 1 = 0). _init_energies runs on a "
+      "record object with symbolic T_ref/P_ref and an ideal-gas eos; its requires Sfus = Hfus/Tm is discharged for _init_data only. Structure <= 4 chemicals. Not covered: "
+      "database sweep (B), pure-component excess functors on real eos objects, EOSMixture. 2 defects repaired.",
+      "deductive: sidecar contracts + VC generation by symbolic execution of the real loop-free functions with uninterpreted integrals, z3 discharge, native replay", "DESIGN.md 4/C07")
